@@ -335,6 +335,47 @@ var zeroIterExceptions = map[string]string{
 // emptyMapReturnsNotFound: a test `len(m) == 0` on a map whose true branch
 // returns the constant not-found dominates block b.
 func (p *Prog) emptyMapReturnsNotFound(fn *ssa.Function, b *ssa.BasicBlock) bool {
+	return p.emptyMapTested(fn, b) != nil
+}
+
+// inheritsZeroIter: fn is only called from functions with a tabled
+// zero-iteration exception, each call lies behind that function's `len(m) ==
+// 0 ⇒ not found` test, and the map tested is handed to fn (the loop over the
+// keys moved into a helper: `exec.executeKeyValuePairs(ctx, node, next, obj,
+// id, found)`).
+func (p *Prog) inheritsZeroIter(fn *ssa.Function) string {
+	n := p.CG.Nodes[fn]
+	if n == nil || len(n.In) == 0 {
+		return ""
+	}
+	why := ""
+	for _, e := range n.In {
+		w := zeroIterExceptions[fnName(e.Caller.Func)]
+		c, ok := e.Site.(*ssa.Call)
+		if w == "" || !ok {
+			return ""
+		}
+		m := p.emptyMapTested(e.Caller.Func, c.Block())
+		if m == nil {
+			return ""
+		}
+		handed := false
+		for _, a := range c.Call.Args {
+			if a == m {
+				handed = true
+			}
+		}
+		if !handed {
+			return ""
+		}
+		why = w + " (in its only caller " + e.Caller.Func.Name() + ", which hands the object on)"
+	}
+	return why
+}
+
+// emptyMapTested: the map whose `len(m) == 0` test, with a true branch that
+// returns the constant not-found, dominates block b (nil if none).
+func (p *Prog) emptyMapTested(fn *ssa.Function, b *ssa.BasicBlock) ssa.Value {
 	nfK := constOf(p.A.StatusConsts["statusNotFound"])
 	for _, f := range factsAt(b) {
 		bo, ok := f.Cond.(*ssa.BinOp)
@@ -364,12 +405,12 @@ func (p *Prog) emptyMapReturnsNotFound(fn *ssa.Function, b *ssa.BasicBlock) bool
 			}
 			if r, ok := other.Instrs[len(other.Instrs)-1].(*ssa.Return); ok && len(r.Results) == 2 {
 				if k, ok := constInt(stripConv(unspill(other, r, r.Results[0]))); ok && k == nfK {
-					return true
+					return lc.Call.Args[0]
 				}
 			}
 		}
 	}
-	return false
+	return nil
 }
 
 // entryFlowCheck: paths from the entry of fn on which nothing is produced
@@ -547,6 +588,8 @@ var ruleStatusFlow = &Rule{
 				out.excepted(key, p.pos(fn.Pos()), fnName(fn), statusFlowException)
 			case zeroIterExceptions[fnName(fn)] != "" && p.loopsGuardedByEmptyMapTest(fn):
 				out.excepted(key, p.pos(fn.Pos()), fnName(fn), zeroIterExceptions[fnName(fn)]+" (checked: a test len(map) == 0 returning not-found dominates every loop of the function)")
+			case p.inheritsZeroIter(fn) != "":
+				out.excepted(key, p.pos(fn.Pos()), fnName(fn), p.inheritsZeroIter(fn))
 			default:
 				out.viol(key, p.pos(fn.Pos()), fnName(fn), "with a collector the function can answer `found` without having handed anything on: "+probs[0]+" (a loop that runs zero times, a status variable never assigned)", probs...)
 			}
